@@ -40,6 +40,17 @@ Fixpoint comment_interp (st : state) (x : list N) : bool :=
   end.
 Definition known_comment_interp (c : case) : bool := comment_interp (N0, []) (c_src c).
 
+(* known class: text produced DURING evaluation (interpolation, `+` on strings) is
+   formatted with the output style: list separators lose their space, numbers
+   their leading zero - inside strings and concatenated tokens *)
+Fixpoint has_sub (p x : list N) : bool :=
+  match x with
+  | [] => match p with [] => true | _ => false end
+  | _ :: r => starts_with p x || has_sub p r
+  end.
+Definition known_eval_text (c : case) : bool :=
+  has_sub [35;123] (c_src c) || (has_sub [43] (c_src c) && has_sub [47] (c_src c)).
+
 Definition run (c : case) : list N :=
   [ b2n (clause_same_outcome c); b2n (clause_same_message c); b2n (clause_same_sheet c);
-    b2n (known_comment_interp c) ].
+    b2n (known_comment_interp c); b2n (known_eval_text c) ].
